@@ -374,6 +374,14 @@ func (c c13) agree(res *core.Result, log *core.EventLog, ent *entropy.Source, cv
 		check("other-key", r, s, nil)
 		pubF, pubS = pf, ps
 	case 15:
+		// a valid signature whose nonce point R has x in [N, p): r = x mod N is tiny. Built by
+		// choosing R and s and solving for the public key Q = r^-1 (s R - z G).
+		if q, r2, s2, ok := bigXSignature(cv, digest, x); ok {
+			pf, ps := pubF, pubS
+			pubF, pubS = &ecdsa.PublicKey{Curve: cv, X: q.X, Y: q.Y}, q
+			check("R.x>=N", r2, s2, nil)
+			pubF, pubS = pf, ps
+		}
 		check("r=1", one, s, nil)
 		check("s=N-1", r, new(big.Int).Sub(N, one), nil)
 		check("r=N-1", new(big.Int).Sub(N, one), s, nil)
@@ -422,4 +430,60 @@ func derLen(b []byte) (int, int) {
 		l = l<<8 | int(b[1+i])
 	}
 	return l, 1 + k
+}
+
+// bigXSignature constructs (Q, r, s) such that (r, s) is a valid ECDSA signature of digest
+// under Q and the nonce point's x-coordinate lies in [N, p) — the case in which the final
+// reduction of x modulo N matters. Uses crypto/elliptic and math/big only.
+func bigXSignature(cv elliptic.Curve, digest []byte, seed int64) (*stdecdsa.PublicKey, *big.Int, *big.Int, bool) {
+	pr := cv.Params()
+	N, P := pr.N, pr.P
+	if N.Cmp(P) >= 0 {
+		return nil, nil, nil, false
+	}
+	three := big.NewInt(3)
+	for j := int64(1 + seed%50); j < 4000; j++ {
+		x := new(big.Int).Add(N, big.NewInt(j))
+		if x.Cmp(P) >= 0 {
+			return nil, nil, nil, false
+		}
+		// y^2 = x^3 - 3x + b
+		y2 := new(big.Int).Exp(x, three, P)
+		y2.Sub(y2, new(big.Int).Mul(three, x))
+		y2.Add(y2, pr.B)
+		y2.Mod(y2, P)
+		y := new(big.Int).ModSqrt(y2, P)
+		if y == nil || !cv.IsOnCurve(x, y) {
+			continue
+		}
+		r := big.NewInt(j)
+		s := new(big.Int).SetBytes([]byte{byte(seed), 0x5a, byte(seed >> 8), 0x11, 0x77})
+		s.Add(s, big.NewInt(2))
+		// z: the digest as the verifier reads it
+		z := new(big.Int).SetBytes(digest)
+		if ob := N.BitLen(); len(digest)*8 > ob {
+			z.SetBytes(digest[:(ob+7)/8])
+			if ex := ((ob+7)/8)*8 - ob; ex > 0 {
+				z.Rsh(z, uint(ex))
+			}
+		}
+		// Q = r^-1 (s R - z G)
+		sx, sy := cv.ScalarMult(x, y, s.Bytes())
+		zm := new(big.Int).Mod(z, N)
+		var tx, ty *big.Int
+		if zm.Sign() == 0 {
+			tx, ty = sx, sy
+		} else {
+			gx, gy := cv.ScalarBaseMult(zm.Bytes())
+			gy = new(big.Int).Sub(P, gy) // -zG
+			tx, ty = cv.Add(sx, sy, gx, gy)
+		}
+		rinv := new(big.Int).ModInverse(r, N)
+		qx, qy := cv.ScalarMult(tx, ty, rinv.Bytes())
+		if qx.Sign() == 0 && qy.Sign() == 0 {
+			continue
+		}
+		return &stdecdsa.PublicKey{Curve: cv, X: qx, Y: qy}, r, s, true
+	}
+	return nil, nil, nil, false
 }
